@@ -34,15 +34,15 @@ func (k kind) String() string {
 }
 
 type node struct {
-	K     kind
-	S     string  // scalar text: the string, the number literal, "true"/"false", "null"
-	Keys  []string // kMap: keys, parallel to Kids
-	Kids  []*node  // kMap: values; kSeq: items
+	K    kind
+	S    string   // scalar text: the string, the number literal, "true"/"false", "null"
+	Keys []string // kMap: keys, parallel to Kids
+	Kids []*node  // kMap: values; kSeq: items
 }
 
-func str(s string) *node  { return &node{K: kStr, S: s} }
-func num(s string) *node  { return &node{K: kNum, S: s} }
-func null() *node         { return &node{K: kNull, S: "null"} }
+func str(s string) *node   { return &node{K: kStr, S: s} }
+func num(s string) *node   { return &node{K: kNum, S: s} }
+func null() *node          { return &node{K: kNull, S: "null"} }
 func boolean(b bool) *node { return &node{K: kBool, S: strconv.FormatBool(b)} }
 func mapping(kv ...any) *node {
 	n := &node{K: kMap}
